@@ -13,7 +13,8 @@ MODULES = ["Shuttle.Props.C04"]
 RULE = ("seeded random move programs (device calls, parallel groups, gates, fills, measurements, loops, branches, "
         "subroutines, closures) x argument tuples x compilation routes: fold, aggressive, typeinfer, verify on/off, "
         "arch_spec given (run by the plain interpreter) or absent (spec-carrying interpreter), + AggressiveUnroll.fixpoint, "
-        "+ move.run_pass applied again; quick = a pairwise-covering set of 12 of the 128 routes per program, thorough = all "
+        "+ move.run_pass applied again, + (spec-at-compile-time routes) the same source compiled again for a second architecture in "
+        "the same process; traced kernels that read the spec themselves included; quick = a pairwise-covering set of 12 of the 128 routes per program, thorough = all "
         "128; each compiled kernel is executed by the event-logging interpreter and compared with the Lean reference "
         "evaluator of the source and with the other routes. Separate streams carry the program features behind the known "
         "findings (positional top_hat_cz buffers; callee with a return inside a branch under inlining). "
@@ -26,6 +27,7 @@ ASSUMPTIONS = ["a route that rejects a program at compile time yields no kernel 
 
 ANSI = re.compile(r"\x1b\[[0-9;]*m")
 SPEC = None
+SPEC2 = None
 OPT_NAMES = ["fold", "aggressive", "typeinfer", "verify", "with_spec", "unroll", "rerun"]
 
 
@@ -78,17 +80,33 @@ def worker(task):
             move.run_pass(mt, fold=fold, aggressive=aggr, typeinfer=tinf, verify=verify, **kw)
     except Exception as e:  # noqa: BLE001
         return (src_fns_key, route, "recompile", f"{type(e).__name__}: {ANSI.sub('', str(e))[:160]}", None)
-    outs = []
-    for a in argsets:
-        r = EV.run_with_events(mt, spec, a, plain=with_spec)
-        if r.error is not None:
-            outs.append("err")
-        else:
-            try:
-                outs.append(f"ok {L.canon_value(r.result)} {EV.canon_events(r.events)}")
-            except Exception as e:  # noqa: BLE001
-                outs.append(f"<uncanonical {type(e).__name__}>")
-    return (src_fns_key, route, "ran", None, outs)
+    def run_all(m, sp):
+        outs = []
+        for a in argsets:
+            r = EV.run_with_events(m, sp, a, plain=with_spec)
+            if r.error is not None:
+                outs.append("err")
+            else:
+                try:
+                    outs.append(f"ok {L.canon_value(r.result)} {EV.canon_events(r.events)}")
+                except Exception as e:  # noqa: BLE001
+                    outs.append(f"<uncanonical {type(e).__name__}>")
+        return outs
+    outs = run_all(mt, spec)
+    outs2 = None
+    if with_spec and not unroll and not rerun:
+        # a second entry point with the same body, sharing the traced kernels and subroutines of the first, compiled
+        # afterwards in this process for a second architecture
+        C06.SPEC_SLOT2 = SPEC2
+        i = src.rindex("@move\ndef main(")
+        opts2 = f"fold={fold}, aggressive={aggr}, typeinfer={tinf}, verify={verify}, arch_spec=_C06.SPEC_SLOT2"
+        s2 = s + "\n" + src[i:].replace("@move\ndef main(", f"@move({opts2})\ndef main2(")
+        try:
+            mod2 = T.load_source(s2, "c04b")
+            outs2 = run_all(mod2.main2, SPEC2)
+        except Exception as e:  # noqa: BLE001
+            outs2 = None
+    return (src_fns_key, route, "ran", outs2, outs)
 
 
 def route_name(r):
@@ -118,13 +136,15 @@ def cz_defaults(s):
 
 
 def run(ctx):
-    global SPEC
+    global SPEC, SPEC2
     SPEC = L.default_move_spec()
+    SPEC2 = L.second_move_spec()
     table = L.sx_spec_table(SPEC)
+    table2 = L.sx_spec_table(SPEC2)
     thorough = ctx.tier == "thorough"
     streams = [
         ("main", {"unknown": 0.0, "assert": 0.0, "recursion": False, "early_return": False, "devfn_param": 0.2, "alias_subs": 0.2,
-                  "wrong_kind": 0.05, "twin_devs": 0.4},
+                  "wrong_kind": 0.05, "twin_devs": 0.4, "kernel_lookup": 0.5, "grid_literals": 0.25},
          40 if thorough else 24),
         ("F4", {"unknown": 0.0, "assert": 0.0, "recursion": False, "early_return": False, "cz_positional": 1.0, "subs": False,
                 "closures": False}, 8 if thorough else 3),
@@ -161,11 +181,14 @@ def run(ctx):
         sxp = L.sx_program(p["fns"])
         for a in p["args"]:
             lines.append(f"(LANG (run spec {table} {sxp} main ({' '.join(L.sx_val(x) for x in a)})))")
+        for a in p["args"]:
+            lines.append(f"(LANG (run spec {table2} {sxp} main ({' '.join(L.sx_val(x) for x in a)})))")
     model = iter(ctx.driver(lines))
     default_route = (True, False, True, True, False, False, False)
     for key, p in progs.items():
         refs = [next(model) for _ in p["args"]]
-        if any(r.startswith("bad") or r == "fuel" for r in refs):
+        refs2 = [next(model) for _ in p["args"]]
+        if any(r.startswith("bad") or r == "fuel" for r in refs + refs2):
             raise HarnessFault("driver could not run a program")
         stream = p["stream"]
         base = p["res"].get(default_route)
@@ -186,6 +209,14 @@ def run(ctx):
                 ctx.fail(dict(case, message=msg), f"re-applying the pipeline (unroll={route[5]}, rerun={route[6]}) to a compiled kernel raises: {msg}",
                          key="F16-reapply-raises" if stream != "main" or "SSAValue" in (msg or "") else None)
                 continue
+            if isinstance(msg, list) and stream == "main":
+                # second architecture, compiled after the first in the same process
+                for a, ref, got in zip(p["args"], refs2, msg):
+                    ctx.count("second_spec_runs")
+                    if ref.startswith("ok") and events_of(got) != events_of(ref):
+                        ctx.fail(dict(case, args=list(a), spec="second spec, compiled after the first in the same process"),
+                                 f"events on route [{route_name(route)}] under a second architecture differ from evaluating the "
+                                 f"source: got={events_of(got)[:300]} source={events_of(ref)[:300]}")
             for a, ref, got in zip(p["args"], refs, outs):
                 ctx.seen((key, a, route), got.count("(") > 4)
                 ctx.count("runs")
